@@ -115,6 +115,31 @@ def emit_unary(o):
     return "".join(s)
 
 
+
+# ---- div.rs
+binop("div", "impl_op_ex", 0, "op_div_dual_f64", "Div", "div", "&Dual", "&R64", "Dual", False,
+      f"{WF1} && {YF} != 0real", f"un1_post(a, r, {X} / {YF}, 1real / {YF})", "C01")
+binop("div", "impl_op_ex", 2, "op_div_dual2_f64", "Div", "div", "&Dual2", "&R64", "Dual2", False,
+      f"{WF2} && {YF} != 0real", f"un2_post(a, r, {X} / {YF}, 1real / {YF}, 0real)", "C02")
+binop("div", "impl_op_ex", 1, "op_div_f64_dual", "Div", "div", "&R64", "&Dual", "Dual", False,
+      f"dual_wf(*b) && {Y} != 0real", f"un1_post(b, r, {XF} / {Y}, -{XF} / ({Y} * {Y}))", "C01",
+      body_start="proof { b.lemma_view_props(); axiom_pow_small(b.real@); }",
+      after=[("a * b.clone().pow", 0, "proof { let y = b.real@; let x = a@; assert(y * y != 0real) by(nonlinear_arith) requires y != 0real; alg_mul_recip(x, y); alg_comm(1real / y, x); alg_mul_recip(x, y * y); alg_neg_recip(x, y * y); assert forall|n: String| #[trigger] vx_tail.s_grad(n) == (-x / (y * y)) * b.s_grad(n) by { alg_scale_neg(x, 1real / (y * y), b.s_grad(n)); } }")])
+binop("div", "impl_op_ex", 4, "op_div_dual_dual", "Div", "div", "&Dual", "&Dual", "Dual", False,
+      f"{WF1B} && {Y} != 0real", f"bin1_post(a, b, r, {X} / {Y}, 1real / {Y}, -{X} / ({Y} * {Y}))", "C01 C03",
+      body_start="proof { a.lemma_view_props(); b.lemma_view_props(); assert(b.real@ * b.real@ != 0real) by(nonlinear_arith) requires b.real@ != 0real; }",
+      after=[("a * b_", 0, "proof { let y = b.real@; let x = a.real@; alg_mul_recip(x, y); alg_mul_recip(x, y * y); alg_neg_recip(x, y * y); assert forall|n: String| #[trigger] vx_tail.s_grad(n) == (1real / y) * a.s_grad(n) + (-x / (y * y)) * b.s_grad(n) by { assert(b_.s_grad(n) == (-1real / (y * y)) * b.s_grad(n)); alg_scale_neg2(x, 1real / (y * y), b.s_grad(n)); } }")])
+
+binop("div", "impl_op_ex", 3, "op_div_f64_dual2", "Div", "div", "&R64", "&Dual2", "Dual2", False,
+      f"dual2_wf(*b) && {Y} != 0real", f"un2_post(b, r, {XF} / {Y}, -{XF} / ({Y} * {Y}), 2real * {XF} / ({Y} * {Y} * {Y}))", "C02",
+      body_start="proof { b.lemma_view_props(); axiom_pow_small(b.real@); }",
+      after=[("a * b.clone().pow", 0, "proof { let y = b.real@; let x = a@; assert(y * y != 0real) by(nonlinear_arith) requires y != 0real; assert(y * y * y != 0real) by(nonlinear_arith) requires y != 0real; let t2 = 1real / (y * y); let t3 = 1real / (y * y * y); alg_mul_recip(x, y); alg_comm(1real / y, x); alg_mul_recip(x, y * y); alg_neg_recip(x, y * y); alg_mul_recip(2real * x, y * y * y); assert(2real * (x * t3) == (2real * x) * t3) by(nonlinear_arith); assert forall|n: String| #[trigger] vx_tail.s_grad(n) == (-x / (y * y)) * b.s_grad(n) by { alg_scale_neg(x, t2, b.s_grad(n)); } assert forall|n: String, k: String| #[trigger] vx_tail.s_hess(n, k) == (-x / (y * y)) * b.s_hess(n, k) + (2real * x / (y * y * y)) * b.s_grad(n) * b.s_grad(k) / 2real by { alg_div2_f64(x, b.s_hess(n, k), b.s_grad(n), b.s_grad(k), t2, t3); } }")])
+
+binop("div", "impl_op_ex", 5, "op_div_dual2_dual2", "Div", "div", "&Dual2", "&Dual2", "Dual2", False,
+      f"{WF2B} && {Y} != 0real", f"bin2_post(a, b, r, {X} / {Y}, 1real / {Y}, -{X} / ({Y} * {Y}), 0real, -1real / ({Y} * {Y}), 2real * {X} / ({Y} * {Y} * {Y}))", "C02 C03",
+      body_start="proof { a.lemma_view_props(); b.lemma_view_props(); axiom_pow_small(b.real@); }",
+      after=[("a * b.clone().pow", 0, "proof { let y = b.real@; let x = a.real@; assert(y * y != 0real) by(nonlinear_arith) requires y != 0real; assert(y * y * y != 0real) by(nonlinear_arith) requires y != 0real; let t2 = 1real / (y * y); let t3 = 1real / (y * y * y); let w1 = 1real / y; alg_mul_recip(x, y); alg_mul_recip(x, y * y); alg_neg_recip(x, y * y); alg_mul_recip(2real * x, y * y * y); assert(2real * (x * t3) == (2real * x) * t3) by(nonlinear_arith); assert forall|n: String| #[trigger] vx_tail.s_grad(n) == (1real / y) * a.s_grad(n) + (-x / (y * y)) * b.s_grad(n) by { alg_scale_neg(x, t2, b.s_grad(n)); } assert forall|n: String, k: String| #[trigger] vx_tail.s_hess(n, k) == hess_rule(a.s_hess(n, k), b.s_hess(n, k), a.s_grad(n), a.s_grad(k), b.s_grad(n), b.s_grad(k), 1real / y, -x / (y * y), 0real, -1real / (y * y), 2real * x / (y * y * y)) by { alg_div2(x, w1, a.s_hess(n, k), b.s_hess(n, k), a.s_grad(n), a.s_grad(k), b.s_grad(n), b.s_grad(k), t2, t3); } }")])
+
 # ---- neg.rs
 unop("neg", "impl_op", 0, "op_neg_dual_owned", "Neg", "neg", "Dual", "Dual", "dual_wf(*a)", "un1_post(a, r, -a.real@, -1real)", "C01")
 unop("neg", "impl_op", 1, "op_neg_dual_ref", "Neg", "neg", "&Dual", "Dual", "dual_wf(*a)", "un1_post(a, r, -a.real@, -1real)", "C01")
